@@ -21,6 +21,7 @@ import (
 	"strings"
 	"time"
 
+	"github.com/go-git/go-billy/v6"
 	"github.com/go-git/go-billy/v6/osfs"
 
 	git "github.com/go-git/go-git/v6"
@@ -766,7 +767,13 @@ func c26(args []string) error {
 	}
 	histSteps, kindMismatch, mustSteps, mustRefused := 0, 0, 0, 0
 	for hi, h := range hists {
-		for _, handle := range []string{"reused", "fresh"} {
+		for _, mode := range []struct{ env, handle string }{{"recorded", "reused"}, {"ondisk", "reused"}, {"ondisk", "fresh"}} {
+			// env "recorded": the worktree filesystem is the jailfs recorder (go-git then uses its generic code path);
+			// env "ondisk": a plain osfs (*BoundOS) worktree exactly as PlainInit/PlainOpen make it - go-git takes its
+			// os.Root based path for checkout / reset / cherry-pick there, which no billy wrapper can see, so the step is
+			// judged by its EFFECTS: paths newly staged in the index (their content was read from that worktree path,
+			// resolved through the links of the current tree) and the sentinels.
+			env, handle := mode.env, mode.handle
 			S, err := os.MkdirTemp(rep.Scratch(), "c26hist")
 			if err != nil {
 				return err
@@ -778,13 +785,26 @@ func c26(args []string) error {
 			}
 			log := jailfs.NewLog()
 			log.Off = true
-			wfs := jailfs.New(osfs.New(wt), []string{"wt"}, log)
+			var wfs billy.Filesystem = osfs.New(wt)
+			if env == "recorded" {
+				wfs = jailfs.New(osfs.New(wt), []string{"wt"}, log)
+			}
 			st := filesystem.NewStorage(osfs.New(filepath.Join(wt, ".git")), cache.NewObjectLRUDefault())
 			repo, err := git.Init(st, git.WithWorkTree(wfs))
 			if err != nil {
 				return fmt.Errorf("init: %w", err)
 			}
 			mustWrite(filepath.Join(wt, ".git", "hooks", "pre-commit"), "#!/bin/sh\n# decoy\n")
+			mustWrite(filepath.Join(wt, ".git", "a"), "decoy a in .git\n")
+			indexNames := func() map[string]string {
+				m := map[string]string{}
+				if idx, err := st.Index(); err == nil {
+					for _, e := range idx.Entries {
+						m[e.Name] = e.Hash.String()
+					}
+				}
+				return m
+			}
 			var tgt []string
 			for _, stp := range h.Steps {
 				if len(stp.Tgt) > 0 {
@@ -817,7 +837,7 @@ func c26(args []string) error {
 			if err != nil {
 				return err
 			}
-			key := "dir-to-symlink-swap/" + handle
+			key := "dir-to-symlink-swap/" + env + "-" + handle
 			for si, stp := range h.Steps {
 				if handle == "fresh" {
 					if w, err = repo.Worktree(); err != nil {
@@ -839,7 +859,7 @@ func c26(args []string) error {
 					kindMismatch++
 				}
 				histSteps++
-				ci := map[string]any{"key": key, "history": h.Steps, "step": si + 1, "handle": handle, "spec_d_kind": stp.Dk, "observed_d_kind": obs,
+				ci := map[string]any{"key": key, "history": h.Steps, "step": si + 1, "handle": handle, "env": env, "spec_d_kind": stp.Dk, "observed_d_kind": obs,
 					"spec_must_not_go_through_d": h.Must[si]}
 				child := strings.Join(stp.Path, "/")
 				commit := cDir
@@ -872,6 +892,7 @@ func c26(args []string) error {
 					continue
 				}
 				links := snapshotLinks(wt)
+				idxBefore := indexNames()
 				log.Take()
 				log.Off = false
 				var opErr error
@@ -885,6 +906,19 @@ func c26(args []string) error {
 				}()
 				log.Off = true
 				recs := log.Take()
+				if env == "ondisk" && (stp.Op == "add" || stp.Op == "move-in" || stp.Op == "move-out") {
+					// effect records: a path staged by this step was read from the worktree at that path
+					var names []string
+					for n, hsh := range indexNames() {
+						if idxBefore[n] != hsh {
+							names = append(names, n)
+						}
+					}
+					sort.Strings(names)
+					for _, n := range names {
+						recs = append(recs, jailfs.Rec{Label: api, Op: "Open", Base: []string{"wt"}, Path: n})
+					}
+				}
 				r.Eval(1)
 				if opErr == nil {
 					opsOK++
@@ -914,7 +948,7 @@ func c26(args []string) error {
 			}
 			keyCount[key]++
 			if hi%37 == 0 {
-				r.Sample(map[string]any{"history": h.Steps, "handle": handle})
+				r.Sample(map[string]any{"history": h.Steps, "handle": handle, "env": env})
 			}
 			_ = st.Close()
 			os.RemoveAll(S)
